@@ -96,6 +96,7 @@ func runPath(env *Env, cfg *ExploreConfig, solver *Solver, fn *ssa.Function, ite
 		pkgInit: make(map[*ssa.Package]int),
 		built:   make(map[*ssa.Package]bool),
 		side:    make(map[*value]interface{}),
+		bigSym:  make(map[*value]*Term),
 	}
 	env.setupReflect(i)
 	i.initSched()
@@ -441,6 +442,8 @@ func RunConcrete(env *Env, fn *ssa.Function, seed uint64, tier int) *ConcreteRun
 			cr.Inputs[in.Name] = inputValueString(ev, in)
 		} else if in.terms[0].sort.K == SBool {
 			cr.Inputs[in.Name] = ev.evalU(in.terms[0]) != 0
+		} else if in.terms[0].sort.K == SInt {
+			cr.Inputs[in.Name] = ev.evalI(in.terms[0]).String()
 		} else {
 			cr.Inputs[in.Name] = fmt.Sprintf("%d", ev.evalU(in.terms[0]))
 		}
